@@ -152,6 +152,7 @@ type ceEmit struct {
 	Method string
 	Call   *ast.CallExpr
 	Args   []string // canonical argument texts (locals substituted, S for the symbol)
+	Env    map[types.Object]ast.Expr // local bindings in force at this operation (for resolving arguments)
 }
 
 type cePath struct {
@@ -194,7 +195,12 @@ type classEval struct {
 	nilMeansZero func(c *classEval, st *ceState, e ast.Expr) bool
 	// prim: a stream method recorded as an operation (anything else on the same receiver is inlined)
 	prim  func(name string) bool
-	recvs map[types.Object]bool // receiver objects (top function and inlined frames)
+	recvs map[types.Object]bool // stream objects: the receiver (top function and inlined frames) or designated locals
+	// emptyMeansZero: string expression whose emptiness is S == 0 (optional)
+	emptyMeansZero func(c *classEval, st *ceState, e ast.Expr) bool
+	// isStream: additional stream objects (locals of the stream type); optional
+	isStream func(obj types.Object) bool
+	noRecv   bool // the method receiver is not a stream
 	err   string
 	out   []cePath
 	depth int
@@ -253,7 +259,7 @@ func (c *classEval) isRecv(st *ceState, e ast.Expr) bool {
 	e = ast.Unparen(e)
 	if id, ok := e.(*ast.Ident); ok {
 		obj := c.info.ObjectOf(id)
-		if c.recvs[obj] {
+		if c.recvs[obj] || (c.isStream != nil && obj != nil && c.isStream(obj)) {
 			return true
 		}
 		if sub, ok := st.env[obj]; ok {
@@ -281,7 +287,7 @@ func (c *classEval) canon(st *ceState, e ast.Expr) string {
 	switch v := e.(type) {
 	case *ast.Ident:
 		if obj := c.info.ObjectOf(v); obj != nil {
-			if sub, ok := st.env[obj]; ok {
+			if sub, ok := st.env[obj]; ok && substitutable(obj.Type()) {
 				return c.canon(st, sub)
 			}
 			if c.recvs[obj] {
@@ -326,6 +332,19 @@ func (c *classEval) canon(st *ceState, e ast.Expr) string {
 		return "*" + c.canon(st, v.X)
 	}
 	return types.ExprString(e)
+}
+
+// substitutable: locals of value-like types are replaced by their defining expression when printing;
+// pointers, structs, maps and interfaces keep their name (their identity, not their initialiser, matters).
+func substitutable(t types.Type) bool {
+	switch u := t.Underlying().(type) {
+	case *types.Basic:
+		return true
+	case *types.Slice:
+		_, ok := u.Elem().Underlying().(*types.Basic)
+		return ok
+	}
+	return false
 }
 
 // cond evaluates a condition to the set of S values for which it is `want`; ok=false if it is not a
@@ -373,6 +392,17 @@ func (c *classEval) cond(st *ceState, e ast.Expr, want bool) (ivSet, bool) {
 						return ivIntersect(ivSet{{0, 0}}, full), true
 					}
 					return full, true // non-nil says nothing about the length
+				}
+			}
+			if c.emptyMeansZero != nil && (v.Op == token.EQL || v.Op == token.NEQ) {
+				for _, pr := range [][2]ast.Expr{{v.X, v.Y}, {v.Y, v.X}} {
+					if tv, ok := c.info.Types[pr[1]]; ok && tv.Value != nil && tv.Value.Kind() == constant.String && constant.StringVal(tv.Value) == "" && c.emptyMeansZero(c, st, c.strip(st, pr[0])) {
+						isEmpty := (v.Op == token.EQL) == want
+						if isEmpty {
+							return ivIntersect(ivSet{{0, 0}}, full), true
+						}
+						return ivComplement(ivSet{{0, 0}}, c.dom), true
+					}
 				}
 			}
 			op := v.Op
@@ -424,9 +454,19 @@ func (c *classEval) reads(st *ceState, e ast.Expr) {
 		for _, a := range v.Args {
 			c.reads(st, a)
 		}
+		// the stream handed to another codec: recorded as one opaque operation
+		if sel, ok := v.Fun.(*ast.SelectorExpr); !ok || !c.isRecv(st, sel.X) {
+			for _, a := range v.Args {
+				if id, isId := ast.Unparen(a).(*ast.Ident); isId && c.isRecv(st, id) {
+					em := ceEmit{Method: "pass:" + c.canon(st, v.Fun), Call: v, Env: st.env}
+					st.emits = append(st.emits, em)
+					break
+				}
+			}
+		}
 		if sel, ok := v.Fun.(*ast.SelectorExpr); ok && c.isRecv(st, sel.X) {
 			if c.prim(sel.Sel.Name) {
-				em := ceEmit{Method: sel.Sel.Name, Call: v}
+				em := ceEmit{Method: sel.Sel.Name, Call: v, Env: st.env}
 				for _, a := range v.Args {
 					em.Args = append(em.Args, c.canon(st, a))
 				}
@@ -615,6 +655,41 @@ func (c *classEval) run(list []ast.Stmt, st ceState, k func(ceState), onRet ceRe
 			return
 		}
 		c.runSwitch(v, st, cont, onRet)
+	case *ast.ForStmt, *ast.RangeStmt:
+		// loops that touch neither the stream nor the class symbol are opaque: skipped, with the
+		// locals they assign forgotten
+		touches := false
+		assigned := map[types.Object]bool{}
+		ast.Inspect(s, func(n ast.Node) bool {
+			switch x := n.(type) {
+			case *ast.Ident:
+				if obj := c.info.ObjectOf(x); obj != nil && (c.recvs[obj] && !c.noRecv || (c.isStream != nil && c.isStream(obj))) {
+					touches = true
+				}
+			case *ast.AssignStmt:
+				for _, l := range x.Lhs {
+					if id, ok := l.(*ast.Ident); ok {
+						assigned[c.info.ObjectOf(id)] = true
+					}
+				}
+			case *ast.CallExpr:
+				if c.symBase(c, &st, ast.Unparen(x)) {
+					touches = true
+				}
+			}
+			return true
+		})
+		if touches {
+			c.fail(s, "loop touching the stream or the class symbol")
+			return
+		}
+		st = st.fork()
+		for o := range assigned {
+			delete(st.env, o)
+		}
+		cont(st)
+	case *ast.DeferStmt, *ast.GoStmt, *ast.IncDecStmt:
+		cont(st)
 	default:
 		c.fail(s, "statement %T outside the fragment", s)
 	}
@@ -721,8 +796,17 @@ func (c *classEval) runClause(cl *ast.CaseClause, st ceState, cont func(ceState)
 // evalClasses enumerates fi. The receiver of fi is the stream.
 func evalClasses(p *core.Program, fi *core.FuncInfo, dom ivl, symBase func(*classEval, *ceState, ast.Expr) bool,
 	nilMeansZero func(*classEval, *ceState, ast.Expr) bool, prim func(string) bool) ([]cePath, string) {
+	return evalClassesOpt(p, fi, dom, symBase, nilMeansZero, prim, nil)
+}
+
+// evalClassesOpt: opt may adjust the evaluator before it runs (designated stream locals, string symbol).
+func evalClassesOpt(p *core.Program, fi *core.FuncInfo, dom ivl, symBase func(*classEval, *ceState, ast.Expr) bool,
+	nilMeansZero func(*classEval, *ceState, ast.Expr) bool, prim func(string) bool, opt func(*classEval)) ([]cePath, string) {
 	c := &classEval{p: p, fi: fi, info: fi.Pkg.TypesInfo, dom: dom, symBase: symBase, nilMeansZero: nilMeansZero, prim: prim, recvs: map[types.Object]bool{}}
-	if fi.Decl.Recv != nil && len(fi.Decl.Recv.List) == 1 && len(fi.Decl.Recv.List[0].Names) == 1 {
+	if opt != nil {
+		opt(c)
+	}
+	if !c.noRecv && fi.Decl.Recv != nil && len(fi.Decl.Recv.List) == 1 && len(fi.Decl.Recv.List[0].Names) == 1 {
 		c.recvs[c.info.Defs[fi.Decl.Recv.List[0].Names[0]]] = true
 	}
 	st := ceState{set: ivSet{dom}, env: map[types.Object]ast.Expr{}}
